@@ -422,7 +422,8 @@ theorem genModel_free_ok {c : Content} (hok : OkV c) {L : Lang} (hL : L ≠ .jl)
   have hia' : noIA c.pars = true := hia
   unfold genModel progOf
   simp only [hcc, bind, Except.bind, hpop, emitBody_nil hok, pure, Except.pure, hinit, List.map_map,
-    Function.comp_def, target_id hL, List.append_assoc, hia', Bool.not_true, Bool.and_false, Bool.false_eq_true,
+    Function.comp_def, target_id hL, zeroVars_of_eqs hok, retNames_of_eqs hok, List.map_nil, List.append_nil,
+    List.append_assoc, hia', Bool.not_true, Bool.and_false, Bool.false_eq_true,
     if_false]
 
 /-- the tail of the program: derived values, reactions, differential equations -/
